@@ -800,13 +800,277 @@ theorem stringSimilarityF_self (a : Str) (boost : Dbl) (p : Nat) (h : Gedcom.cle
   rw [hx.2]
   exact jaroWinklerF_self _ boost p hx.1 hp hla
 
-/-! ### The binary64 model is the regenerated source, rounding by rounding -/
+/-! ### The name/date mix of `(*IndividualNode).Similarity` on the float64 values -/
 
 open Gedcom.SimSrc in
 /-- `1.0 - x` as the source interpretation computes it is `oneMinus x` for `x ≤ 1` -/
 theorem absdiff_one (x : Dbl) (h : x.mant ≤ 2 ^ x.frac) : absdiff (ofNat 1) x = oneMinus x := by
   unfold absdiff oneMinus ofNat
   simp [h]
+
+
+/-- what is known about `1 - x` for a binary64 `x < 1` with at most 900 fractional bits -/
+theorem oneMinus_facts (x : Dbl) (hlt : x.mant < 2 ^ x.frac) (hxf : x.frac ≤ 900) :
+    2 ^ 52 ≤ (oneMinus x).mant ∧ (oneMinus x).mant ≤ 2 ^ 53 ∧
+    (oneMinus x).mant ≤ 2 ^ (oneMinus x).frac ∧ (oneMinus x).frac ≤ 1000 ∧
+    2 * ((oneMinus x).mant * 2 ^ x.frac) ≤
+      2 * ((2 ^ x.frac - x.mant) * 2 ^ (oneMinus x).frac) + 2 ^ x.frac := by
+  have hnpos : 0 < 2 ^ x.frac - x.mant := by omega
+  have hd1000 : 2 ^ x.frac ≤ 2 ^ 1000 := Nat.pow_le_pow_right (by omega) (by omega)
+  have hdom : 2 ^ x.frac - x.mant < 2 ^ 53 * 2 ^ x.frac := by
+    have : 2 ^ x.frac ≤ 2 ^ 53 * 2 ^ x.frac := Nat.le_mul_of_pos_left _ (by positivity)
+    omega
+  have h53 : 2 ^ 52 ≤ (oneMinus x).mant ∧ (oneMinus x).mant ≤ 2 ^ 53 :=
+    rnd_53_bits (2 ^ x.frac - x.mant) (2 ^ x.frac) hnpos (by positivity) hd1000 hdom
+  have hy1 : leNat (oneMinus x) 1 := by
+    unfold oneMinus; apply rnd_leNat _ _ _ (by positivity); omega
+  have hyfe : (oneMinus x).frac = fracBits (2 ^ x.frac - x.mant) (2 ^ x.frac) := by
+    unfold oneMinus rnd; rw [if_neg (by omega)]
+  have herr : 2 * ((oneMinus x).mant * 2 ^ x.frac) ≤
+      2 * ((2 ^ x.frac - x.mant) * 2 ^ (oneMinus x).frac) + 2 ^ x.frac := by
+    have := (roundDiv_err (2 ^ x.frac - x.mant) (2 ^ x.frac)
+      (fracBits (2 ^ x.frac - x.mant) (2 ^ x.frac)) (by positivity)).2
+    rw [hyfe]
+    unfold oneMinus rnd; rw [if_neg (by omega)]; simpa using this
+  have hyf1000 : (oneMinus x).frac ≤ 1000 := by
+    have hP : 2 ^ 52 * 2 ^ x.frac ≤ (2 ^ x.frac - x.mant) * 2 ^ (x.frac + 52) := by
+      calc 2 ^ 52 * 2 ^ x.frac = 1 * 2 ^ (x.frac + 52) := by rw [Nat.pow_add]; ring
+        _ ≤ (2 ^ x.frac - x.mant) * 2 ^ (x.frac + 52) := Nat.mul_le_mul_right _ hnpos
+    have := fracBits_le _ _ _ hP
+    omega
+  unfold leNat at hy1
+  simp only [Nat.one_mul] at hy1
+  exact ⟨h53.1, h53.2, hy1, hyf1000, herr⟩
+
+/-- **`p + z ≤ 1` in float64 whenever `p ≤ x` and `z ≤ 1 - x`** (as float64 values, `x ≤ 1`): the
+    rounded complement exceeds the exact one by at most 2^-53, and a sum of at most `1 + 2^-53`
+    rounds to at most one -/
+theorem add_compl_le_one (x p z : Dbl) (hx : leNat x 1) (hxf : x.frac ≤ 900)
+    (hp : F64.le p x) (hz : F64.le z (oneMinus x)) : leNat (add p z) 1 := by
+  unfold leNat at hx
+  simp only [Nat.one_mul] at hx
+  rcases Nat.eq_or_lt_of_le hx with heq | hlt
+  · -- x = 1: the complement is zero
+    have hy : oneMinus x = ⟨0, 0⟩ := by unfold oneMinus; rw [heq]; simp [rnd]
+    rw [hy] at hz
+    have hz0 : z.mant = 0 := by unfold F64.le at hz; simpa using hz
+    have hp1 : p.mant ≤ 2 ^ p.frac := by
+      unfold F64.le at hp
+      rw [heq] at hp
+      have : p.mant * 2 ^ x.frac ≤ 2 ^ p.frac * 2 ^ x.frac := by
+        rw [Nat.mul_comm (2 ^ p.frac)]; exact hp
+      exact Nat.le_of_mul_le_mul_right this (by positivity)
+    unfold add
+    apply rnd_leNat _ _ _ (by positivity)
+    rw [hz0, Nat.pow_add]
+    simp only [Nat.zero_mul, Nat.add_zero, Nat.one_mul]
+    exact Nat.mul_le_mul_right _ hp1
+  · obtain ⟨h52, _, hy1, _, herr⟩ := oneMinus_facts x hlt hxf
+    generalize oneMinus x = y at *
+    have hyf52 : 52 ≤ y.frac := by
+      have : 2 ^ 52 ≤ 2 ^ y.frac := le_trans h52 hy1
+      exact (Nat.pow_le_pow_iff_right (by omega)).mp this
+    unfold add
+    apply rnd_le_one_of_near _ _ (by positivity)
+    rw [le_iff_toQ] at hz hp
+    unfold toQ at hz hp
+    have herrq : (2 : ℚ) * (y.mant * 2 ^ x.frac) ≤ 2 * ((2 ^ x.frac - x.mant) * 2 ^ y.frac) + 2 ^ x.frac := by
+      have hcast : ((2 ^ x.frac - x.mant : ℕ) : ℚ) = 2 ^ x.frac - x.mant := by
+        rw [Nat.cast_sub hx]; push_cast; ring
+      have : ((2 * (y.mant * 2 ^ x.frac) : ℕ) : ℚ) ≤
+          ((2 * ((2 ^ x.frac - x.mant) * 2 ^ y.frac) + 2 ^ x.frac : ℕ) : ℚ) := by exact_mod_cast herr
+      push_cast at this
+      rw [hcast] at this
+      linarith
+    have hX : (0 : ℚ) < 2 ^ x.frac := by positivity
+    have hY : (0 : ℚ) < 2 ^ y.frac := by positivity
+    have hyq : (y.mant : ℚ) / 2 ^ y.frac ≤ 1 - (x.mant : ℚ) / 2 ^ x.frac + 1 / (2 * 2 ^ y.frac) := by
+      rw [div_le_iff₀ hY]
+      have e : (1 - (x.mant : ℚ) / 2 ^ x.frac + 1 / (2 * 2 ^ y.frac)) * 2 ^ y.frac =
+          (2 * ((2 ^ x.frac - x.mant) * 2 ^ y.frac) + 2 ^ x.frac) / (2 * 2 ^ x.frac) := by
+        field_simp
+      rw [e, le_div_iff₀ (by positivity)]
+      linarith
+    have h252 : (1 : ℚ) / (2 * 2 ^ y.frac) ≤ 1 / 2 ^ 53 := by
+      apply one_div_le_one_div_of_le (by positivity)
+      calc (2 : ℚ) ^ 53 = 2 * 2 ^ 52 := by norm_num
+        _ ≤ 2 * 2 ^ y.frac := by
+          apply mul_le_mul_of_nonneg_left _ (by norm_num)
+          exact pow_le_pow_right₀ (by norm_num) hyf52
+    have hsumq : (p.mant : ℚ) / 2 ^ p.frac + (z.mant : ℚ) / 2 ^ z.frac ≤ 1 + 1 / 2 ^ 53 := by
+      linarith
+    have hfin : ((2 ^ 53 * (p.mant * 2 ^ z.frac + z.mant * 2 ^ p.frac) : ℕ) : ℚ) ≤
+        (((2 ^ 53 + 1) * 2 ^ (p.frac + z.frac) : ℕ) : ℚ) := by
+      push_cast
+      have e : (p.mant : ℚ) / 2 ^ p.frac + (z.mant : ℚ) / 2 ^ z.frac =
+          ((p.mant : ℚ) * 2 ^ z.frac + z.mant * 2 ^ p.frac) / 2 ^ (p.frac + z.frac) := by
+        rw [pow_add]; field_simp
+      rw [e, div_le_iff₀ (by positivity)] at hsumq
+      have e2 : (1 + 1 / (2 : ℚ) ^ 53) * 2 ^ (p.frac + z.frac) =
+          (2 ^ 53 + 1) * 2 ^ (p.frac + z.frac) / 2 ^ 53 := by field_simp
+      rw [e2, le_div_iff₀ (by positivity)] at hsumq
+      linarith
+    exact_mod_cast hfin
+
+/-- a product with a factor of at most one does not exceed the other factor (a binary64 with 53
+    significant bits, or zero) -/
+theorem mul_le_right (c y : Dbl) (hc : c.mant ≤ 2 ^ c.frac)
+    (hy : y.mant = 0 ∨ (2 ^ 52 ≤ y.mant ∧ y.mant ≤ 2 ^ 53 ∧ y.frac ≤ 1000)) :
+    F64.le (mul c y) y := by
+  rcases hy with h0 | ⟨h1, h2, h3⟩
+  · unfold mul; rw [h0]; simp [rnd, F64.le]
+  · have hz1 : F64.le (mul c y) (rnd y.mant (2 ^ y.frac)) := by
+      unfold mul
+      apply rnd_mono _ _ _ _ (by positivity) (by positivity)
+      calc c.mant * y.mant * 2 ^ y.frac ≤ 2 ^ c.frac * y.mant * 2 ^ y.frac :=
+            Nat.mul_le_mul_right _ (Nat.mul_le_mul_right _ hc)
+        _ = y.mant * 2 ^ (c.frac + y.frac) := by rw [Nat.pow_add]; ring
+    exact le_trans' hz1 (rnd_idem_le y h1 h2 h3)
+
+theorem mul_comm' (a b : Dbl) : mul a b = mul b a := by
+  unfold mul; rw [Nat.mul_comm a.mant, Nat.add_comm a.frac]
+
+/-- **Bounds of the name/date mix**: for a name score and date scores in [0,1] and a ratio in
+    [0,1] that is a float64 (53 significant bits, at most 900 fractional bits), the float64 value
+    `name*ratio + (birth+death)/2.0*(1.0-ratio)` never exceeds one -/
+theorem mixF_le_one (name birth death ratio : Dbl) (hn : leNat name 1) (hb : leNat birth 1)
+    (hd : leNat death 1) (hr : leNat ratio 1) (hrf : ratio.frac ≤ 900)
+    (hrs : ratio.mant = 0 ∨ (2 ^ 52 ≤ ratio.mant ∧ ratio.mant ≤ 2 ^ 53)) :
+    leNat (mixF name birth death ratio) 1 := by
+  unfold mixF
+  have hr' : ratio.mant ≤ 2 ^ ratio.frac := by unfold leNat at hr; simpa using hr
+  rw [absdiff_one ratio hr']
+  apply add_compl_le_one ratio _ _ hr hrf
+  · -- name * ratio ≤ ratio
+    rw [mul_comm']
+    rw [mul_comm']
+    have hn' : name.mant ≤ 2 ^ name.frac := by unfold leNat at hn; simpa using hn
+    rcases hrs with h0 | ⟨h1, h2⟩
+    · exact mul_le_right name ratio hn' (Or.inl h0)
+    · exact mul_le_right name ratio hn' (Or.inr ⟨h1, h2, by omega⟩)
+  · -- avg * (1 - ratio) ≤ 1 - ratio
+    have havg : leNat (div (add birth death) (ofNat 2)) 1 := by
+      have h2 := add_leNat birth death 1 1 hb hd
+      generalize add birth death = t at *
+      unfold div ofNat
+      apply rnd_leNat _ _ _ (by positivity)
+      unfold leNat at h2
+      simp only [Nat.pow_zero, Nat.mul_one, Nat.one_mul]
+      omega
+    have havg' : (div (add birth death) (ofNat 2)).mant ≤ 2 ^ (div (add birth death) (ofNat 2)).frac := by
+      unfold leNat at havg; simpa using havg
+    rcases Nat.eq_or_lt_of_le hr' with heq | hlt
+    · have hy : oneMinus ratio = ⟨0, 0⟩ := by unfold oneMinus; rw [heq]; simp [rnd]
+      rw [hy]
+      exact mul_le_right _ _ havg' (Or.inl rfl)
+    · obtain ⟨f1, f2, _, f4, _⟩ := oneMinus_facts ratio hlt hrf
+      exact mul_le_right _ _ havg' (Or.inr ⟨f1, f2, f4⟩)
+
+theorem leNat_of_le_one (x : Dbl) (h : F64.le x one) : leNat x 1 := by
+  unfold F64.le one at h; unfold leNat; simpa using h
+
+/-- the running maximum of the name matrix stays in [0,1] -/
+theorem nameSimilarityF_le_one (ns ms : List Str) (boost : Dbl) (pre : Nat) (hp : pre ≤ 10)
+    (hlen : ∀ n ∈ ns, ∀ m ∈ ms, (Sim.comparedNames n m).1.length ≤ 2 ^ 1000) :
+    leNat (nameSimilarityF ns ms boost pre) 1 := by
+  unfold nameSimilarityF
+  have inner : ∀ (n : Str) (l : List Str) (acc : Dbl), leNat acc 1 →
+      (∀ m ∈ l, (Sim.comparedNames n m).1.length ≤ 2 ^ 1000) →
+      leNat (l.foldl (fun acc m =>
+        let s := stringSimilarityF n m boost pre
+        if F64.lt acc s then s else acc) acc) 1 := by
+    intro n l
+    induction l with
+    | nil => intro acc h _; simpa using h
+    | cons m l ih =>
+      intro acc h hl
+      simp only [List.foldl_cons]
+      apply ih
+      · split
+        · exact leNat_of_le_one _ (stringSimilarityF_bounds n m boost pre hp (hl m (by simp))).2
+        · exact h
+      · intro m' hm'; exact hl m' (by simp [hm'])
+  have outer : ∀ (l : List Str) (acc : Dbl), leNat acc 1 →
+      (∀ n ∈ l, ∀ m ∈ ms, (Sim.comparedNames n m).1.length ≤ 2 ^ 1000) →
+      leNat (l.foldl (fun acc n => ms.foldl (fun acc m =>
+        let s := stringSimilarityF n m boost pre
+        if F64.lt acc s then s else acc) acc) acc) 1 := by
+    intro l
+    induction l with
+    | nil => intro acc h _; simpa using h
+    | cons n l ih =>
+      intro acc h hl
+      simp only [List.foldl_cons]
+      apply ih
+      · exact inner n ms acc h (hl n (by simp))
+      · intro n' hn'; exact hl n' (by simp [hn'])
+  exact outer ns ⟨0, 0⟩ (by simp [leNat]) hlen
+
+theorem dateNodeSimilarityF_le_one (l r : Option Sim.DateR) (m : Dbl) :
+    leNat (dateNodeSimilarityF l r m) 1 := by
+  unfold dateNodeSimilarityF
+  split
+  · exact leNat_of_le_one _ (dateSimilarity_bounds _ _ _).2
+  · simp [leNat, half]
+
+/-- a ratio `float64(n)/float64(d)` in (0,1] with a denominator below 2^800 is a binary64 with 53
+    significant bits and at most 900 fractional bits -/
+theorem ofRat_shape (q : Rat) (h0 : 0 ≤ q) (h1 : q ≤ 1) (hd : q.den ≤ 2 ^ 800) :
+    leNat (ofRat q) 1 ∧ (ofRat q).frac ≤ 900 ∧
+    ((ofRat q).mant = 0 ∨ (2 ^ 52 ≤ (ofRat q).mant ∧ (ofRat q).mant ≤ 2 ^ 53)) := by
+  unfold ofRat
+  have hnum0 : 0 ≤ q.num := Rat.num_nonneg.mpr h0
+  have hle : q.num.toNat ≤ q.den := by
+    have : q.num ≤ q.den := by
+      have h : (q.num : ℚ) / (q.den : ℚ) ≤ 1 := by rw [Rat.num_div_den]; exact h1
+      have hdq : (0 : ℚ) < q.den := by exact_mod_cast q.den_pos
+      rw [div_le_one hdq] at h
+      exact_mod_cast h
+    omega
+  have hdpos : 0 < q.den := q.den_pos
+  refine ⟨rnd_leNat _ _ 1 hdpos (by simpa using hle), ?_, ?_⟩
+  · by_cases hn : q.num.toNat = 0
+    · rw [hn]; simp [rnd]
+    · rw [rnd_frac _ _ (by omega)]
+      have : fracBits q.num.toNat q.den ≤ 852 := by
+        apply fracBits_le
+        calc 2 ^ 52 * q.den ≤ 2 ^ 52 * 2 ^ 800 := Nat.mul_le_mul_left _ hd
+          _ = 1 * 2 ^ 852 := by rw [← Nat.pow_add]; simp
+          _ ≤ q.num.toNat * 2 ^ 852 := Nat.mul_le_mul_right _ (by omega)
+      omega
+  · by_cases hn : q.num.toNat = 0
+    · left; rw [hn]; simp [rnd]
+    · right
+      apply rnd_53_bits _ _ (by omega) hdpos
+      · exact le_trans hd (Nat.pow_le_pow_right (by omega) (by omega))
+      · calc q.num.toNat ≤ q.den := hle
+          _ < 2 ^ 53 * q.den := by
+            have : 1 * q.den < 2 ^ 53 * q.den := Nat.mul_lt_mul_of_pos_right (by norm_num) hdpos
+            omega
+
+/-- **Bounds**: `(*IndividualNode).Similarity` on the float64 values lies in [0,1] for a
+    name/date ratio in [0,1], prefix sizes up to ten and names of any length Go can hold -/
+theorem indiSimilarityF_bounds (x y : Sim.Indi) (o : Sim.SimOpts)
+    (hr0 : 0 ≤ o.nameToDateRatio) (hr1 : o.nameToDateRatio ≤ 1)
+    (hrd : o.nameToDateRatio.den ≤ 2 ^ 800) (hp : o.jaroPrefixSize ≤ 10)
+    (hlen : ∀ n ∈ x.names, ∀ m ∈ y.names, (Sim.comparedNames n m).1.length ≤ 2 ^ 1000) :
+    F64.le ⟨0, 0⟩ (indiSimilarityF x y o) ∧ F64.le (indiSimilarityF x y o) one := by
+  refine ⟨zero_le _, ?_⟩
+  obtain ⟨s1, s2, s3⟩ := ofRat_shape o.nameToDateRatio hr0 hr1 hrd
+  have := mixF_le_one
+    (nameSimilarityF x.names y.names (ofRat o.jaroBoostThreshold) o.jaroPrefixSize)
+    (dateNodeSimilarityF x.birth y.birth (ofRat o.maxYears))
+    (dateNodeSimilarityF x.death y.death (ofRat o.maxYears))
+    (ofRat o.nameToDateRatio)
+    (nameSimilarityF_le_one _ _ _ _ hp hlen)
+    (dateNodeSimilarityF_le_one _ _ _) (dateNodeSimilarityF_le_one _ _ _) s1 s2 s3
+  unfold indiSimilarityF
+  simp only
+  unfold leNat at this
+  unfold F64.le one
+  simpa using this
+
+/-! ### The binary64 model is the regenerated source, rounding by rounding -/
 
 open Gedcom.SimSrc in
 /-- **`JaroWinkler`'s boost step in the model is the regenerated source expression, evaluated in
